@@ -67,6 +67,7 @@ func SpecStackName(k string) string { return k }
 //@   modifies nothing
 
 //@ contract NewConfig
+//@   timeout 60
 //@   requires cfg != nil
 //@   requires forall i int :: 0 <= i && i < len(cfg.Programs) ==> cfg.Programs[i] != nil
 //@   ensures result != nil && fresh(result)
